@@ -147,14 +147,16 @@ pub trait MergeStrategy {
             // C17: for every strategy that honours the contracts below the driver terminates (decreases clause of the loop) without
             // panicking and hands back a tree with the strategy's guarantee
             final(self).result_ok(*final(t)),
+            // no strategy touches the post order of the vertices
+            final(t).post == old(t).post,
 //@loop 1
-            invariant self.inv(*t),
+            invariant self.inv(*t), t.post == old(t).post,
             decreases (if self.done() { 0 } else { 1 + self.fuel(*t) }),
 //@end
 //@fn file=src/solver/chordal/merge/mod.rs in="trait MergeStrategy" name=initialise
 //@contract
         requires old(self).init_pre(*old(t)),
-        ensures final(self).inv(*final(t))
+        ensures final(self).inv(*final(t)), final(t).post == old(t).post,
 //@end
 //@fn file=src/solver/chordal/merge/mod.rs in="trait MergeStrategy" name=is_done ret=r
 //@contract
@@ -175,7 +177,7 @@ pub trait MergeStrategy {
 //@fn file=src/solver/chordal/merge/mod.rs in="trait MergeStrategy" name=merge_two_cliques
 //@contract
         requires exists|f: nat| self.ready(*old(t), cand, f),
-        ensures forall|f: nat| #[trigger] self.ready(*old(t), cand, f) ==> self.mid(*final(t), cand, true, f),
+        ensures forall|f: nat| #[trigger] self.ready(*old(t), cand, f) ==> self.mid(*final(t), cand, true, f), final(t).post == old(t).post,
 //@end
 //@fn file=src/solver/chordal/merge/mod.rs in="trait MergeStrategy" name=update_strategy
 //@contract
@@ -185,7 +187,7 @@ pub trait MergeStrategy {
 //@fn file=src/solver/chordal/merge/mod.rs in="trait MergeStrategy" name=post_process_merge
 //@contract
         requires old(self).inv(*old(t)),
-        ensures final(self).result_ok(*final(t)),
+        ensures final(self).result_ok(*final(t)), final(t).post == old(t).post,
 //@end
 }
 
@@ -230,6 +232,7 @@ impl MergeStrategy for NoMergeStrategy {
 pub open spec fn out_ok(t: SuperNodeTree) -> bool {
     &&& dims_ok(t) && 1 <= t.n_cliques <= tn(t) && t.snode_post@.len() == t.n_cliques
     &&& forall|i: int| 0 <= i < t.snode_post@.len() ==> #[trigger] t.snode_post@[i] < tn(t)
+    &&& forall|c: int| 0 <= c < tn(t) ==> (#[trigger] t.snode@[c])@.len() < 0x8000_0000 && t.separators@[c]@.len() < 0x8000_0000
 }
 
 // ---- merge/parent_child.rs ----
@@ -785,7 +788,7 @@ it
         let ghost t0 = *t;
         proof { lemma_post_order_pre(*t); }
 //@post
-        proof { lemma_children_permuted(t0, *t); lemma_tree_dims(*t); }
+        proof { lemma_children_permuted(t0, *t); lemma_tree_out_ok(*t); }
 //@end
 }
 // a clique whose parent is q is listed among q's children
@@ -829,6 +832,337 @@ pub proof fn lemma_children_permuted(t0: SuperNodeTree, t1: SuperNodeTree)
     assert(t1.snode_parent@[r] == NO_PARENT);
     assert forall|x: usize| covered(t0, x) implies covered(t1, x) by { let c = choose|c: int| in_sn(t0, c, x); assert(in_sn(t1, c, x)); }
     assert forall|c: int, x: usize| in_sn(t1, c, x) == in_sn(t0, c, x) by { }
+}
+
+// ---- merge/clique_graph.rs: stand-in (ASSUMED to honour the contracts of the trait; HashMap / closures / CscMatrix<isize> throughout) ----
+pub struct CliqueGraphMergeStrategy { pub stop: bool }
+impl CliqueGraphMergeStrategy { #[verifier::external_body] pub fn new() -> (r: Self) { unimplemented!() } }
+impl MergeStrategy for CliqueGraphMergeStrategy {
+    // needs at least two cliques: with one clique the edge matrix is empty and `findmax(&A.nzval).unwrap()` in max_elem panics
+    open spec fn init_pre(&self, t: SuperNodeTree) -> bool { tree_ok(t) && post_ok(t) && tn(t) >= 2 && t.snode_post@.len() == tn(t) && t.n_cliques == tn(t) }
+    uninterp spec fn inv(&self, t: SuperNodeTree) -> bool;
+    uninterp spec fn done(&self) -> bool;
+    uninterp spec fn fuel(&self, t: SuperNodeTree) -> nat;
+    uninterp spec fn cand_ok(&self, t: SuperNodeTree, cand: (usize, usize), f: nat) -> bool;
+    uninterp spec fn ready(&self, t: SuperNodeTree, cand: (usize, usize), f: nat) -> bool;
+    uninterp spec fn mid(&self, t: SuperNodeTree, cand: (usize, usize), do_merge: bool, f: nat) -> bool;
+    open spec fn result_ok(&self, t: SuperNodeTree) -> bool { out_ok(t) }
+    #[verifier::external_body] fn initialise(&mut self, t: &mut SuperNodeTree) { unimplemented!() }
+    #[verifier::external_body] fn is_done(&self) -> bool { unimplemented!() }
+    #[verifier::external_body] fn traverse(&mut self, t: &SuperNodeTree) -> Option<(usize, usize)> { unimplemented!() }
+    #[verifier::external_body] fn evaluate(&mut self, t: &SuperNodeTree, cand: (usize, usize)) -> bool { unimplemented!() }
+    #[verifier::external_body] fn merge_two_cliques(&self, t: &mut SuperNodeTree, cand: (usize, usize)) { unimplemented!() }
+    #[verifier::external_body] fn update_strategy(&mut self, t: &SuperNodeTree, cand: (usize, usize), do_merge: bool) { unimplemented!() }
+    #[verifier::external_body] fn post_process_merge(&mut self, t: &mut SuperNodeTree) { unimplemented!() }
+}
+
+// ---- sparsity_pattern.rs ----
+//@struct file=src/algebra/csc/core.rs name=CscMatrix
+//@struct file=src/solver/chordal/sparsity_pattern.rs name=SparsityPattern
+// rule strmatch: comparing a &str with a string literal (ASSUMED: equality of the character sequences)
+#[verifier::external_body]
+pub fn str_eq(a: &str, b: &str) -> (r: bool) ensures r == (a@ == b@) { a == b }
+// the pattern of the LDL factor as the tree code reads it (definitions of unit chordal_tree)
+pub open spec fn L_wf(L: CscMatrix<F>) -> bool {
+    &&& L.m == L.n && L.colptr@.len() == L.n + 1
+    &&& forall|a: int, b: int| 0 <= a <= b <= L.n ==> L.colptr@[a] <= L.colptr@[b]
+    &&& L.colptr@[L.n as int] <= L.rowval@.len()
+}
+pub open spec fn L_connected(L: CscMatrix<F>) -> bool { forall|c: int| 0 <= c < L.n - 1 ==> #[trigger] L.colptr@[c] < L.colptr@[c + 1] }
+pub open spec fn in_col(L: CscMatrix<F>, k: int, c: int) -> bool { 0 <= c < L.n && L.colptr@[c] <= k < L.colptr@[c + 1] }
+pub open spec fn L_strict_lower(L: CscMatrix<F>) -> bool { forall|c: int, k: int| #[trigger] in_col(L, k, c) ==> c < L.rowval@[k] < L.n }
+pub open spec fn L_ok(L: CscMatrix<F>) -> bool { L.n >= 1 && L.n < 0x8000_0000 && L_wf(L) && L_connected(L) && L_strict_lower(L) }
+impl SuperNodeTree {
+    // ASSUMED: SuperNodeTree::new.  Its pieces are under contract in the units chordal_tree (parent_from_L, children_from_parent,
+    // higher_degree, the partition invariant of pothen_sun) and chordal_snode (post_order loop, snode_parent values and renumbering,
+    // find_supernodes, find_separators); see the header for what of tree_ok those contracts cover and what they do not (sep_in_parent,
+    // "the root comes last in the post order").
+    #[verifier::external_body]
+    pub fn new(L: &CscMatrix<F>) -> (r: Self)
+        requires L_ok(*L),
+        ensures
+            tree_ok(r), post_ok(r), nv(r) == L.n, tn(r) >= 1, r.snode_post@.len() == tn(r), r.n_cliques == tn(r), r.nblk is None,
+            tn(r) >= 2 ==> trav_ok(r, tn(r) - 2),
+    { unimplemented!() }
+    // ASSUMED here: reorder_snode_consecutively (sort / IndexSet::extend / invperm / ipermute).  Renumbers the vertices inside the sets;
+    // the shape of the tree, the post order and the sizes of all sets stay
+    #[verifier::external_body]
+    pub fn reorder_snode_consecutively(&mut self, ordering: &mut [usize])
+        requires out_ok(*old(self)), old(ordering)@.len() == nv(*old(self)),
+        ensures
+            out_ok(*final(self)), final(ordering)@.len() == old(ordering)@.len(), final(self).n_cliques == old(self).n_cliques,
+            final(self).snode_post == old(self).snode_post, final(self).nblk == old(self).nblk, tn(*final(self)) == tn(*old(self)),
+            forall|c: int| 0 <= c < tn(*old(self)) ==> (#[trigger] final(self).snode@[c])@.len() == old(self).snode@[c]@.len(),
+            forall|c: int| 0 <= c < tn(*old(self)) ==> (#[trigger] final(self).separators@[c])@.len() == old(self).separators@[c]@.len(),
+    { unimplemented!() }
+//@fn file=src/solver/chordal/supernode_tree.rs in="impl SuperNodeTree" name=calculate_block_dimensions
+//@contract
+    requires out_ok(*old(self)),
+    ensures
+        // C17 (block sizes consistent with the cliques): nblk[i] = |separator| + |supernode| of the clique of order i; nothing else changes
+        final(self).nblk matches Some(nb) && nb@.len() == old(self).n_cliques && blocks_ok(*old(self), nb@),
+        final(self).snode == old(self).snode, final(self).snode_post == old(self).snode_post, final(self).snode_parent == old(self).snode_parent,
+        final(self).snode_children == old(self).snode_children, final(self).post == old(self).post, final(self).separators == old(self).separators,
+        final(self).n_cliques == old(self).n_cliques,
+//@loop 1
+        invariant
+            *self == *old(self), n == self.n_cliques, nblk@.len() == n, out_ok(*self),
+            forall|k: int| 0 <= k < $var1 ==> #[trigger] nblk@[k] == self.separators@[self.snode_post@[k] as int]@.len() + self.snode@[self.snode_post@[k] as int]@.len(),
+//@body_start 1
+            proof { assert(self.snode_post@[$var1 as int] < tn(*self)); }
+//@end
+}
+pub open spec fn blocks_ok(t: SuperNodeTree, nb: Seq<usize>) -> bool {
+    forall|i: int| 0 <= i < nb.len() ==> #[trigger] nb[i] == t.separators@[t.snode_post@[i] as int]@.len() + t.snode@[t.snode_post@[i] as int]@.len()
+}
+pub proof fn lemma_tree_out_ok(t: SuperNodeTree)
+    requires tree_ok(t), post_ok(t), t.snode_post@.len() == t.n_cliques,
+    ensures out_ok(t),
+{
+    lemma_tree_dims(t);
+    assert forall|c: int| 0 <= c < tn(t) implies (#[trigger] t.snode@[c])@.len() < 0x8000_0000 && t.separators@[c]@.len() < 0x8000_0000 by { lemma_clique_sizes(t, c); }
+}
+pub open spec fn is_merge_method(s: Seq<char>) -> bool { s == "none"@ || s == "parent_child"@ || s == "clique_graph"@ }
+impl SparsityPattern {
+//@fn file=src/solver/chordal/sparsity_pattern.rs in="impl SparsityPattern" name=new rules=R1,strmatch ret=r
+//@contract
+        requires
+            L_ok(L), ordering@.len() == L.n,
+            // the `_` arm panics.  NOT established by DefaultSolver::new (see the header): settings are validated only by the builder
+            is_merge_method(merge_method@),
+        ensures
+            // C17: merging runs only if there is more than one clique (each strategy's `initialise` needs two); the result carries a post
+            // order of its n_cliques >= 1 non-empty cliques and block sizes consistent with them
+            r.orig_index == orig_index, r.ordering@.len() == L.n, out_ok(r.sntree),
+            r.sntree.nblk matches Some(nb) && nb@.len() == r.sntree.n_cliques && blocks_ok(r.sntree, nb@),
+//@after "let mut sntree = SuperNodeTree::new(&L);"
+        proof { lemma_tree_out_ok(sntree); }
+//@end
+}
+
+// ---- chordal_info.rs: control flow of the analysis of one PSD cone, and the counting helpers ----
+//@enum file=src/solver/core/cones/supportedcone.rs name=SupportedConeT
+//@struct file=src/solver/chordal/chordal_info.rs name=ConeMapEntry
+//@struct file=src/solver/chordal/chordal_info.rs name=ChordalInfo
+pub open spec fn tri(k: int) -> int { k * (k + 1) / 2 }
+// ASSUMED here, PROVED in unit scalarmath
+#[verifier::external_body]
+fn triangular_index(k: usize) -> (r: usize)
+    requires k < 0x8000_0000,
+    ensures r == tri(k as int + 1) - 1,
+{ unimplemented!() }
+// packed index of the diagonal entry (i, i)
+pub open spec fn diag_idx(i: int) -> int { tri(i + 1) - 1 }
+pub open spec fn all_true(m: Seq<bool>) -> bool { forall|i: int| 0 <= i < m.len() ==> #[trigger] m[i] }
+// ASSUMED: find_graph (triplets -> CSC, symbolic QDLDL, connect_graph; the triplet loop and connect_graph are PROVED in unit
+// chordal_decomp).  Reached only with a mask that is not all-true, hence non-empty.  Assumed of the result: the strictly lower
+// triangular pattern of the LDL factor of the cone's graph, connected by connect_graph, of the dimension of the cone, with an
+// ordering of that length
+#[verifier::external_body]
+fn find_graph(nz_mask: &[bool]) -> (r: (CscMatrix<F>, Vec<usize>))
+    requires !all_true(nz_mask@),
+    ensures L_ok(r.0), r.1@.len() == r.0.n,
+{ unimplemented!() }
+pub proof fn lemma_tri_props(k: int)
+    requires k >= 0,
+    ensures tri(k + 1) == tri(k) + k + 1, tri(k) >= 0,
+    decreases k,
+{
+    if k > 0 { lemma_tri_props(k - 1); }
+    assert((k + 1) * (k + 2) == k * (k + 1) + 2 * (k + 1)) by (nonlinear_arith);
+    assert(k * (k + 1) >= 0) by (nonlinear_arith) requires k >= 0;
+    assert((k * (k + 1)) % 2 == 0) by {
+        if k > 0 { assert(k * (k + 1) == (k - 1) * k + 2 * k) by (nonlinear_arith); assert(((k - 1) * k) % 2 == 0) by { lemma_even(k - 1); } }
+        else { assert(k * (k + 1) == 0) by (nonlinear_arith) requires k == 0; }
+    }
+}
+pub proof fn lemma_even(k: int) requires k >= 0 ensures (k * (k + 1)) % 2 == 0 decreases k
+{
+    if k > 0 { lemma_even(k - 1); assert(k * (k + 1) == (k - 1) * k + 2 * k) by (nonlinear_arith); }
+    else { assert(k * (k + 1) == 0) by (nonlinear_arith) requires k == 0; }
+}
+pub proof fn lemma_tri_mono(a: int, b: int) requires 0 <= a <= b ensures tri(a) <= tri(b) decreases b - a
+{ if a < b { lemma_tri_props(b - 1); lemma_tri_mono(a, b - 1); } }
+// every decomposed pattern that is kept has at least two cliques (C17: a pattern that merges to a single clique is dropped)
+pub open spec fn patterns_ok(sp: Seq<SparsityPattern>) -> bool { forall|i: int| 0 <= i < sp.len() ==> out_ok((#[trigger] sp[i]).sntree) && sp[i].sntree.n_cliques >= 2 }
+pub open spec fn sum_cliques(sp: Seq<SparsityPattern>, k: int) -> int decreases k { if k <= 0 { 0 } else { sum_cliques(sp, k - 1) + sp[k - 1].sntree.n_cliques } }
+pub open spec fn sum_snodes(sp: Seq<SparsityPattern>, k: int) -> int decreases k { if k <= 0 { 0 } else { sum_snodes(sp, k - 1) + sp[k - 1].sntree.snode@.len() } }
+pub open spec fn is_psd(c: SupportedConeT<F>) -> bool { c is PSDTriangleConeT }
+pub open spec fn cnt_psd(cones: Seq<SupportedConeT<F>>, k: int) -> int decreases k { if k <= 0 { 0 } else { cnt_psd(cones, k - 1) + (if is_psd(cones[k - 1]) { 1int } else { 0int }) } }
+pub proof fn lemma_sums(sp: Seq<SparsityPattern>, k: int)
+    requires patterns_ok(sp), 0 <= k <= sp.len(),
+    ensures 2 * k <= sum_cliques(sp, k) <= sum_snodes(sp, k) <= k * 0x8000_0000,
+    decreases k,
+{
+    if k > 0 {
+        lemma_sums(sp, k - 1);
+        assert(out_ok(sp[k - 1].sntree));
+        assert((k - 1) * 0x8000_0000 + 0x8000_0000 == k * 0x8000_0000) by (nonlinear_arith);
+    }
+}
+pub proof fn lemma_cnt_psd_bounds(cones: Seq<SupportedConeT<F>>, k: int)
+    requires 0 <= k, ensures 0 <= cnt_psd(cones, k) <= k, decreases k,
+{ if k > 0 { lemma_cnt_psd_bounds(cones, k - 1); } }
+impl ChordalInfo<F> {
+    // sizes of one problem: fewer than 2^31 patterns / cones
+    pub open spec fn wf(&self) -> bool { patterns_ok(self.spatterns@) && self.spatterns@.len() < 0x8000_0000 && self.init_cones@.len() < 0x8000_0000 }
+//@fn file=src/solver/chordal/chordal_info.rs in="impl<T> ChordalInfo<T>" name=analyse_psdtriangle_sparsity_pattern rules=R1,R21,strmatch
+//@contract
+        requires
+            // the rows of the cone: the packed upper triangle of a conedim x conedim matrix (rng_cones of a PSDTriangleConeT(conedim))
+            old(nz_mask)@.len() == tri(conedim as int), conedim < 0x8000_0000, is_merge_method(merge_method@),
+            patterns_ok(old(self).spatterns@),
+        ensures
+            // the diagonal entries are forced on, nothing else of the mask changes
+            final(nz_mask)@.len() == old(nz_mask)@.len(),
+            forall|l: int| 0 <= l < old(nz_mask)@.len() ==> #[trigger] final(nz_mask)@[l] == (old(nz_mask)@[l] || exists|d: int| 0 <= d < conedim && l == #[trigger] diag_idx(d)),
+            // C17: the pattern is either left undecomposed - always when it is dense - or ONE pattern is recorded for this cone, and
+            // then it has at least two cliques (a pattern that is not dense is dropped only if it ends with a single clique: the
+            // second early return is the only other path that does not push)
+            all_true(final(nz_mask)@) ==> final(self).spatterns@ == old(self).spatterns@,
+            final(self).spatterns@ == old(self).spatterns@ || (final(self).spatterns@.len() == old(self).spatterns@.len() + 1
+                && final(self).spatterns@.subrange(0, old(self).spatterns@.len() as int) == old(self).spatterns@
+                && final(self).spatterns@.last().orig_index == coneidx && final(self).spatterns@.last().sntree.n_cliques >= 2
+                && final(self).spatterns@.last().sntree.nblk is Some),
+            patterns_ok(final(self).spatterns@),
+            final(self).init_dims == old(self).init_dims, final(self).init_cones == old(self).init_cones, final(self).H == old(self).H, final(self).cone_maps == old(self).cone_maps,
+//@pre
+        let ghost m0 = nz_mask@;
+        let ghost sp0 = self.spatterns@;
+        proof { assert(nz_mask@.len() == nz_mask.len()); }
+//@loop 1
+            invariant
+                *self == *old(self), nz_mask@.len() == m0.len(), m0.len() == tri(conedim as int), conedim < 0x8000_0000,
+                forall|l: int| 0 <= l < m0.len() ==> #[trigger] nz_mask@[l] == (m0[l] || exists|d: int| 0 <= d < $var1 && l == #[trigger] diag_idx(d)),
+//@body_start 1
+            let ghost gi = $var1 as int;
+            let ghost m1 = nz_mask@;
+            proof { lemma_tri_props(gi); lemma_tri_mono(gi + 1, conedim as int); }
+//@body_end 1
+            proof {
+                assert forall|l: int| 0 <= l < m0.len() implies #[trigger] nz_mask@[l] == (m0[l] || exists|d: int| 0 <= d < gi + 1 && l == #[trigger] diag_idx(d)) by {
+                    if l == diag_idx(gi) { assert(0 <= gi < gi + 1 && l == diag_idx(gi)); }
+                    else {
+                        assert(nz_mask@[l] == m1[l]);
+                        if exists|d: int| 0 <= d < gi && l == #[trigger] diag_idx(d) { let d = choose|d: int| 0 <= d < gi && l == #[trigger] diag_idx(d); assert(0 <= d < gi + 1 && l == diag_idx(d)); }
+                        else if exists|d: int| 0 <= d < gi + 1 && l == #[trigger] diag_idx(d) { let d = choose|d: int| 0 <= d < gi + 1 && l == #[trigger] diag_idx(d); assert(d == gi); }
+                    }
+                }
+            }
+//@iter 2
+it2
+//@loop 2
+                invariant
+                    it2.seq().len() == nz_mask@.len(), forall|k: int| 0 <= k < nz_mask@.len() ==> *(#[trigger] it2.seq()[k]) == nz_mask@[k],
+                    r21_k1 == (forall|k: int| 0 <= k < it2.index@ ==> #[trigger] nz_mask@[k]),
+//@after "let spattern = SparsityPattern::new("
+        proof {
+            assert(self.spatterns@ == sp0);
+        }
+//@post
+        proof {
+            if self.spatterns@ != sp0 {
+                assert(self.spatterns@ == sp0.push(self.spatterns@.last()));
+                assert(self.spatterns@.subrange(0, sp0.len() as int) == sp0);
+                assert forall|i: int| 0 <= i < self.spatterns@.len() implies out_ok((#[trigger] self.spatterns@[i]).sntree) && self.spatterns@[i].sntree.n_cliques >= 2 by {
+                    if i < sp0.len() { assert(self.spatterns@[i] == sp0[i]); }
+                }
+            }
+        }
+//@end
+//@fn file=src/solver/chordal/chordal_info.rs in="impl<T> ChordalInfo<T>" name=is_decomposed rules=R1 ret=r
+//@contract
+        ensures r == (self.spatterns@.len() > 0)
+//@end
+//@fn file=src/solver/chordal/chordal_info.rs in="impl<T> ChordalInfo<T>" name=init_cone_count rules=R1 ret=r
+//@contract
+        ensures r == self.init_cones@.len()
+//@end
+//@fn file=src/solver/chordal/chordal_info.rs in="impl<T> ChordalInfo<T>" name=init_psd_cone_count rules=R1,R22 ret=r
+//@contract
+        ensures r == cnt_psd(self.init_cones@, self.init_cones@.len() as int)
+//@pre
+        proof { assert(self.init_cones@.len() == self.init_cones.len()); }
+//@iter 1
+it
+//@loop 1
+                invariant
+                    it.seq().len() == self.init_cones@.len(), forall|k: int| 0 <= k < self.init_cones@.len() ==> *(#[trigger] it.seq()[k]) == self.init_cones@[k],
+                    r22_n1 == cnt_psd(self.init_cones@, it.index@ as int), r22_n1 <= it.index@, self.init_cones@.len() <= usize::MAX,
+//@body_start 1
+                    proof { lemma_cnt_psd_bounds(self.init_cones@, it.index@ as int); }
+//@end
+//@fn file=src/solver/chordal/chordal_info.rs in="impl<T> ChordalInfo<T>" name=decomposable_cone_count rules=R1 ret=r
+//@contract
+        ensures r == self.spatterns@.len()
+//@end
+//@fn file=src/solver/chordal/chordal_info.rs in="impl<T> ChordalInfo<T>" name=final_psd_cones_added rules=R1,R24 ret=r
+//@contract
+        requires self.wf(),
+        ensures
+            // every decomposed cone is replaced by its cliques: (number of cliques) - 1 additional cones each; `ncliques - ndecomposable`
+            // cannot underflow because every kept pattern has >= 2 cliques
+            r == sum_cliques(self.spatterns@, self.spatterns@.len() as int) - self.spatterns@.len(), r >= self.spatterns@.len(),
+            r <= self.spatterns@.len() * 0x8000_0000,
+//@iter 1
+it
+//@loop 1
+            invariant
+                self.wf(), it.seq().len() == self.spatterns@.len(), forall|k: int| 0 <= k < self.spatterns@.len() ==> *(#[trigger] it.seq()[k]) == self.spatterns@[k],
+                acc == sum_cliques(self.spatterns@, it.index@ as int),
+//@body_start 1
+            proof {
+                lemma_sums(self.spatterns@, it.index@ as int); lemma_sums(self.spatterns@, it.index@ + 1);
+                assert((it.index@ + 1) * 0x8000_0000 <= 0x8000_0000 * 0x8000_0000) by (nonlinear_arith) requires it.index@ + 1 <= 0x8000_0000;
+            }
+//@after "let ndecomposable ="
+        proof { lemma_sums(self.spatterns@, self.spatterns@.len() as int); }
+//@end
+//@fn file=src/solver/chordal/chordal_info.rs in="impl<T> ChordalInfo<T>" name=premerge_psd_cones_added rules=R1,R24 ret=r
+//@contract
+        requires self.wf(),
+        ensures r == sum_snodes(self.spatterns@, self.spatterns@.len() as int) - self.spatterns@.len(), r >= self.spatterns@.len(), r <= self.spatterns@.len() * 0x8000_0000,
+//@iter 1
+it
+//@loop 1
+            invariant
+                self.wf(), it.seq().len() == self.spatterns@.len(), forall|k: int| 0 <= k < self.spatterns@.len() ==> *(#[trigger] it.seq()[k]) == self.spatterns@[k],
+                acc == sum_snodes(self.spatterns@, it.index@ as int),
+//@body_start 1
+            proof {
+                lemma_sums(self.spatterns@, it.index@ as int); lemma_sums(self.spatterns@, it.index@ + 1);
+                assert((it.index@ + 1) * 0x8000_0000 <= 0x8000_0000 * 0x8000_0000) by (nonlinear_arith) requires it.index@ + 1 <= 0x8000_0000;
+            }
+//@after "let ndecomposable ="
+        proof { lemma_sums(self.spatterns@, self.spatterns@.len() as int); }
+//@end
+//@fn file=src/solver/chordal/chordal_info.rs in="impl<T> ChordalInfo<T>" name=final_cone_count rules=R1 ret=r
+//@contract
+        requires self.wf(),
+        ensures r == self.init_cones@.len() + sum_cliques(self.spatterns@, self.spatterns@.len() as int) - self.spatterns@.len(),
+//@pre
+        proof { assert(self.spatterns@.len() * 0x8000_0000 <= 0x8000_0000 * 0x8000_0000) by (nonlinear_arith) requires self.spatterns@.len() <= 0x8000_0000; }
+//@end
+//@fn file=src/solver/chordal/chordal_info.rs in="impl<T> ChordalInfo<T>" name=final_psd_cone_count rules=R1 ret=r
+//@contract
+        requires self.wf(),
+        ensures r == cnt_psd(self.init_cones@, self.init_cones@.len() as int) + sum_cliques(self.spatterns@, self.spatterns@.len() as int) - self.spatterns@.len(),
+//@pre
+        proof {
+            assert(self.spatterns@.len() * 0x8000_0000 <= 0x8000_0000 * 0x8000_0000) by (nonlinear_arith) requires self.spatterns@.len() <= 0x8000_0000;
+            lemma_cnt_psd_bounds(self.init_cones@, self.init_cones@.len() as int);
+        }
+//@end
+//@fn file=src/solver/chordal/chordal_info.rs in="impl<T> ChordalInfo<T>" name=premerge_psd_cone_count rules=R1 ret=r
+//@contract
+        requires self.wf(),
+        ensures r == cnt_psd(self.init_cones@, self.init_cones@.len() as int) + sum_snodes(self.spatterns@, self.spatterns@.len() as int) - self.spatterns@.len(),
+//@pre
+        proof {
+            assert(self.spatterns@.len() * 0x8000_0000 <= 0x8000_0000 * 0x8000_0000) by (nonlinear_arith) requires self.spatterns@.len() <= 0x8000_0000;
+            lemma_cnt_psd_bounds(self.init_cones@, self.init_cones@.len() as int);
+        }
+//@end
 }
 
 } // verus!
